@@ -117,6 +117,16 @@ def run(chk):
                 break
     chk.sample({"track_ops": [h["op"] for h in tcases[7]["hist"]], "model_after_each": [[h["outcome"], canon_segs(h["segs"])] for h in tcases[7]["hist"]]})
 
+    # ---------------- unbounded argument (Apalache): Tiling is inductive for ANY span and ANY integer arguments
+    apa = os.path.join(SPECS, "apalache", "TracksInd.tla")
+    base, t1 = vlib.apalache(apa, ["--cinit=ConstInit", "--init=BaseInit", "--inv=IndInv", "--length=0"])
+    step, t2 = vlib.apalache(apa, ["--cinit=ConstInit", "--init=IndInit", "--inv=IndInv", "--length=1"])
+    chk.cov["apalache_tiling_inductive"] = {"base_case": base, "inductive_step": step, "seconds": t1 + t2,
+                                            "scope": "any Span >= 1, any integer arguments, tracks of up to 5 segments before the step"}
+    vlib.log(f"[apalache] TracksInd: base {base}, step {step} ({t1 + t2:.1f}s)")
+    # the specification's own invariant must be inductive; an Error here is a defect of the SPECIFICATION (tool error), never of the code
+    chk.require(base != "Error" and step != "Error", "Apalache: Tiling is not inductive for Tracks (specification defect)")
+
     # ---------------- level 2
     cfg = os.path.join(W, "compile.cfg")
     nrand = 6000 if thorough else 300
